@@ -7,6 +7,16 @@ git checkout -q -- . ; rm -f tests/demo_confirm.rs
 git apply $D/patch.diff || { echo "{\"name\":\"$NAME\",\"error\":\"patch does not apply\"}" > $D/confirm.json; exit 1; }
 SUITE=$(timeout 1500 cargo test --offline --workspace --no-fail-fast --lib --tests 2>&1 | grep -E "^test result|FAILED|^test .* FAILED" )
 SUITE_FAILS=$(echo "$SUITE" | grep -c "FAILED")
+# a failure under load of a test that passes when re-run alone (write_buffer_size_* are timing sensitive) is a flake, not the change
+if [ "$SUITE_FAILS" -gt 0 ]; then
+  NAMES=$(echo "$SUITE" | sed -n 's/^test \(.*\) \.\.\. FAILED$/\1/p' | sort -u)
+  STILL=0
+  for T in $NAMES; do
+    R=$(timeout 600 cargo test --offline --workspace --lib --tests -- --exact "$T" 2>&1 | grep -E "^test .* FAILED" | wc -l)
+    [ "$R" -gt 0 ] && STILL=$((STILL+1))
+  done
+  if [ "$STILL" -eq 0 ] && [ -n "$NAMES" ]; then echo "flaky under load, passed when re-run alone: $NAMES" >&2; SUITE_FAILS=0; fi
+fi
 SUITE_OK=$(echo "$SUITE" | grep -c "test result: ok")
 cp $D/demo.rs tests/demo_confirm.rs
 WITH=$(timeout 900 cargo test --offline --test demo_confirm -- --test-threads 1 2>&1 | grep -E "^test result" | tail -1)
